@@ -305,9 +305,12 @@ def pmap(modname, fname, items, procs=None, chunk=64):
     if len(items) < 2 * chunk or procs <= 1:
         return _pmap_worker((modname, fname, items))
     chunks = [items[i : i + chunk] for i in range(0, len(items), chunk)]
+    from concurrent.futures import ProcessPoolExecutor
+
     ctx = mp.get_context("fork")
-    with ctx.Pool(procs) as pool:
-        res = pool.map(_pmap_worker, [(modname, fname, c) for c in chunks])
+    # ProcessPoolExecutor workers are not daemonic, so `impl` may itself fork watchdog children (run_with_timeout)
+    with ProcessPoolExecutor(max_workers=procs, mp_context=ctx) as pool:
+        res = list(pool.map(_pmap_worker, [(modname, fname, c) for c in chunks]))
     return [x for r in res for x in r]
 
 
